@@ -111,6 +111,11 @@ def real_schema(doc, rec=None, fresh=False):
     """Load the rendered document on the real code; check the rendering
     precondition alpha(parse(rho(S))) = S once per document."""
     import ZConfig
+    if doc.get("external"):
+        key = "external:" + doc["path"]
+        if fresh or key not in _schema_cache:
+            _schema_cache[key] = ZConfig.loadSchema(doc["path"])
+        return _schema_cache[key]
     xml = schemas.to_xml(doc)
     if not fresh and xml in _schema_cache:
         return _schema_cache[xml]
